@@ -32,7 +32,10 @@ RandInst(x) ==
 
 RandAnn(x) ==
   LET die == RandomElement(1 .. 10) IN
-  CASE die <= 7 -> [kind |-> "instance", service |-> Watched, inst |-> RandInst(x)]
+  CASE die <= 5 -> [kind |-> "instance", service |-> Watched, inst |-> RandInst(x)]
+    \* the same, but the packet's additional section also carries records of foreign names (a host, an
+    \* instance of another service, the service name itself): they must not leak into the reported instance
+    [] die <= 7 -> [kind |-> "instance+foreign", service |-> Watched, inst |-> RandInst(x)]
     [] die = 8 -> [kind |-> "instance", service |-> Other, inst |-> RandInst(x)]
     [] die = 9 -> [kind |-> "service-ptr", service |-> Watched, inst |-> RandInst(x)]
     [] OTHER -> [kind |-> "unrelated", service |-> Watched, inst |-> RandInst(x)]
